@@ -17,10 +17,42 @@
 
   TSIG signing is a parameter `macFn` of `finish` (the MAC itself is C11's business).
 -/
-import QV.Proofs.Writer
+import QV.Proofs.WriterSession
+import QV.Proofs.WriterBridge
 
 namespace QV.C12
-open QV QV.Writer
+open QV QV.Writer QV.ServerSafety
+
+/-! ## the property, in full
+
+  `C12_full`: for every buffer, limit, initial compression mode and every sequence of public
+  calls that respects the hint contract, with any MAC function that respects the reservation —
+  the session does not panic, and the statuses and octets the model produces satisfy the
+  executable specification `QV.Spec.Message.checkSession` (the finished message decodes with the
+  independent decoder to exactly the header values, questions, records, OPT and TSIG record of
+  the calls that succeeded, every failure is justified — `Truncation` only when the
+  uncompressed encoding does not fit —, the message fits the limit in effect, names equal the
+  names given exactly / up to ASCII case according to the mode, and the pointer audit passes).
+  This is literally what the driver evaluates as the *model column* of every `waudit` case, and
+  (on the implementation's octets) as the *spec column*.
+
+  Proved below for all operation sequences: (a) the invariant, (b) the size limit, (c) failed
+  operations change nothing, (e) no spurious truncation, (f) the extended RCODE, no panic and
+  `finish` succeeds under the hint contract. Not proved: (d) the decoding half of `C12_full`
+  (that `specDecodeMsg` of the finished octets yields the abstract message) — the byte-level
+  facts it needs are proved (`QV.Writer.NameSpec`: every written name is stored, and denotes the
+  name given, exactly where the model says), but the round trip through the independent decoder
+  `specDecodeMsg` is only checked by the oracle (model column of `waudit`, 100 % of generated
+  sessions). -/
+
+def C12_full : Prop :=
+  ∀ (buf : Bytes) (limit : Nat) (mode : CMode) (s : State) (ops : List Op) (mac : Option (List UInt8)),
+    Writer.new buf limit = .ok s → Respects { w := { s with mode := mode } } ops →
+    MacLenOK (fun _ _ => mac.getD []) →
+    let r := Driver.runModel { w := { s with mode := mode } } ops mac true
+    ∃ m, r.msg = some m ∧
+      Spec.Message.checkSession buf.size limit (Driver.toSpecMode mode) (ops.map Driver.toSpecOp)
+        r.statuses (r.pre ++ [m]) r.mac = "ok"
 
 /-! ## (a) the invariant, for all operation sequences -/
 
@@ -64,6 +96,48 @@ theorem C12_limit_all_sequences (buf : Bytes) (limit : Nat) (s : State)
 theorem C12_failed_op_changes_nothing (ss : Session) (op : Op) (h : Inv ss.w) (e : WriterErr)
     (he : (step ss op).1 = .err e) : Same ss.w (step ss op).2.w :=
   step_err_same ss op h e he
+
+/-! ## (e) no spurious truncation -/
+
+/-- For every state, every call and every hint (valid or not): a call fails with `Truncation`
+    only if its *uncompressed* encoding (`uncompressedLen`) does not fit between the cursor and
+    `available` (= limit minus the OPT/TSIG reservations). (Re-creating the writer from a
+    template on a smaller buffer is the one other source of `Truncation`.) -/
+theorem C12_no_spurious_truncation (ss : Session) (op : Op) (ht : isTemplateOp op = false)
+    (hfit : ss.w.cursor + uncompressedLen op ≤ ss.w.available) :
+    (step ss op).1 ≠ .err .Truncation := by
+  intro h
+  have := step_truncation ss op ht h
+  omega
+
+/-! ## no panic, and `finish` succeeds, for every sequence that respects the hint contract -/
+
+/-- `Respects`: names are well-formed `Name`s, every hint given for an owner is valid in the state
+    in which it is used (`HintOK`: the anchor it resolves to starts an earlier copy of that name,
+    up to ASCII case), TSIG times are 48-bit. Then no call panics — in particular neither the
+    `panic!("invalid pointer found during compression; this is a bug")` nor any slice index of
+    the scan — and the full invariant `I` (numeric invariant, valid anchors, sound pointer log)
+    holds at the end. -/
+theorem C12_no_panic_under_contract (buf : Bytes) (limit : Nat) (s : State)
+    (h : Writer.new buf limit = .ok s) (ops : List Op) (hr : Respects { w := s } ops) :
+    (∀ r ∈ (run { w := s } ops).2, r ≠ .panic) ∧ I (run { w := s } ops).1.w :=
+  run_I _ ops (new_i buf limit s h) hr
+
+/-- from any such state `finish` returns a message (the two `unwrap`s cannot fail: the OPT and
+    TSIG records fit the space reserved for them) provided the MAC is not longer than the
+    algorithm's output -/
+theorem C12_finish_succeeds (s : State) (hI : I s) (macFn : Tsig → List UInt8 → List UInt8)
+    (hmac : MacLenOK macFn) : ∃ m mac, finish s macFn = .ok (m, mac) :=
+  finish_ok macFn hmac s hI
+
+/-- non-vacuity of `Respects`: any session that passes well-formed names and no hints respects
+    the contract, from any state (`Hint::None` "will always produce correct results") -/
+example (ss : Session) :
+    Respects ss [.addQuestion ⟨[[119, 119, 119], [97]]⟩ 1 1,
+      .addRr .answer (.direct .none) ⟨[[119, 119, 119], [97]]⟩ 5 1 60 [1, 98, 1, 97, 0] none,
+      .clearRrs, .setEdns 1232] :=
+  ⟨(by decide : WName.WF ⟨[[119, 119, 119], [97]]⟩), ⟨(by decide : WName.WF ⟨[[119, 119, 119], [97]]⟩), trivial⟩,
+    trivial, trivial, trivial⟩
 
 /-! ## (f) the extended RCODE (repaired defect D07) -/
 
